@@ -594,6 +594,12 @@ func ZZ_C04_failedPodOnCanaryNode() {
 	ds.Status.ActiveReplicaSet = rsNew.Name
 	ds.Status.Canary = &datadoghqv1alpha1.ExtendedDaemonSetStatusCanary{ReplicaSet: rsOld.Name, Nodes: []string{zzNodeName(0)}}
 	ds.Status.State = datadoghqv1alpha1.ExtendedDaemonSetStatusStateCanary
+	// the user may have removed the optional canary section of the spec during the canary: until the
+	// ExtendedDaemonSet reconcile ends it, status.canary still names the nodes ("while a canary is in
+	// progress (status.canary set)")
+	if nondet.Bool("canaryStrategyRemovedFromTheSpec") {
+		ds.Spec.Strategy.Canary = nil
+	}
 	switch nondet.String("canaryPod", "failed", "running-not-ready", "pending", "missing") {
 	case "failed":
 		c.Pods = append(c.Pods, zzPod("canary-pod", zzNodeName(0), zzOldRS, zzHashOld, 0, corev1.PodFailed, false, nondet.Base().Add(-600*1e9)))
@@ -632,6 +638,9 @@ func ZZ_C04_activeLeavesUnfitCanaryNodeAlone() {
 	datadoghqv1alpha1.DefaultExtendedDaemonSetSpec(&ds.Spec, datadoghqv1alpha1.ExtendedDaemonSetSpecStrategyCanaryValidationModeAuto)
 	ds.Status.ActiveReplicaSet = rsOld.Name
 	ds.Status.Canary = &datadoghqv1alpha1.ExtendedDaemonSetStatusCanary{ReplicaSet: rsNew.Name, Nodes: []string{zzNodeName(0)}}
+	if nondet.Bool("canaryStrategyRemovedFromTheSpec") {
+		ds.Spec.Strategy.Canary = nil
+	}
 	why := nondet.String("canaryNodeUnfitForActiveBecause", "fit", "taint", "selector", "gone")
 	switch why {
 	case "taint":
